@@ -26,12 +26,12 @@ RULES = {
           "decided by regular-language equality on the constant-folded patterns); the window-size swap applies to every source of the text-area size",
     "R3": "colour scaling is per component: inside x_parse_color's comprehension the scale depends on that component's own digit count",
     "R4": "fallbacks never block: query_terminal returns None before touching the terminal when queries are disabled; every caller guards its "
-          "use of the response; read_tty is called with `timeout or _query_timeout`; set_query_timeout rejects <= 0",
+          "use of the response; read_tty is called with `timeout or _query_timeout`; set_query_timeout rejects <= 0 (every termios/tty call of query_terminal runs under `_queries_enabled`, and the value returned when disabled is None); shared with C15.R2: no hand-rolled module-global memo of terminal behaviour in utils.py",
     "R6": "bounded waiting: read_tty's timed loop continues only while (timeout < 0 or elapsed < timeout) and more(input); select() waits at most the "
           "remaining time (timeout - elapsed, or None only for a negative = infinite timeout); the elapsed time is recomputed after every wait; the "
           "non-blocking mode (timeout None) polls with a zero select timeout; VMIN is reset to 0 after the blocking min-read",
     "R5": "style selection: _styles lists every concrete BaseImage subclass once in the documented preference order (kitty, iterm2, block; "
-          "text-based last); auto_image_class returns the first supported class, else the last; support rules use the documented names/versions",
+          "text-based last); auto_image_class returns the first supported class, else the last; support rules use the documented names/versions; decided on the traced condition sets under which `cls._supported = True` is stored (kitty: OK reply to the graphics query and kitty >= 0.20.0 or konsole; iterm2: a truth table over terminal name x version new enough x version parse failed); the terminal name is lower-cased on every return path of get_terminal_name_version; the dotted-integer version parse runs only for konsole",
 }
 U, CS, KT, IT, IM, I = "utils.py", "_ctlseqs.py", "image/kitty.py", "image/iterm2.py", "image/__init__.py", "__init__.py"
 MAY_CONTAIN_C = {"TEXT_FG_QUERY_b", "TEXT_BG_QUERY_b", "XTVERSION_b"}
@@ -453,6 +453,12 @@ def run(ck, m):
                 if base is not None:
                     ck.ob("R2", enclosing_stmt(c), False, f"{fn_q.name}: the reply is cut (`{norm(base)[-60:]}`) before it is parsed: when the read ended for another reason than the expected suffix (timeout, "
                           "unsupported DA1) the cut removes the terminator of the last real reply and the pattern no longer matches", stmt=f"{fn_q.name}: reply parsed as returned by query_terminal")
+    # ---- shared with C15.R2: nothing about the terminal is remembered between queries except through the memos enable_queries() invalidates
+    from tiv.report import Scoped
+    import rules.c15 as c15
+    sc15 = Scoped(ck, "R4", lambda c: c.startswith("utils.py::"), rids={"R2"})
+    c15.run(sc15, m)
+    ck.expect(sc15.kept >= 3, f"expected the memo obligations of C15.R2 (got {sc15.kept})")
 
 
 MUTANTS = [
